@@ -137,9 +137,85 @@ PROP = dict(
     level="proof",
     units=["static", "static_s"],
     census=[census_mutator_call_sites, census_action_sites],
-    level_text="PLACEHOLDER",
-    level_note="PLACEHOLDER",
-    trusted=COMMON_TRUST,
-    assumptions=[],
+    level_text="The guards and the flag propagation of C10 are proved by Verus on the REAL Interpreter / Host / CallInputs / "
+               "CreateInputs of the compiled crates, on text extracted verbatim on each run: instructions/host.rs sstore, tstore, "
+               "log<N>, selfdestruct (the only four call sites of a state-mutating Host method in crates/interpreter/src: census) "
+               "and the reads balance, selfbalance, extcodesize, extcodehash, extcodecopy, sload, tload; instructions/contract.rs "
+               "create<IS_CREATE2>, eofcreate, call, call_code, delegate_call, static_call, extcall, extdelegatecall, extstaticcall "
+               "(the only places that hand a CallInputs / CreateInputs / EOFCreateInputs to the EVM: census), extcall_input, "
+               "extcall_gas_calc and contract/call_helpers.rs resize_memory, get_memory_input_and_out_ranges, calc_call_gas, with "
+               "the verbatim macros require_non_staticcall! require_eof! check! gas! refund! gas_or_fail! pop! pop_ret! pop_top! "
+               "pop_address(_ret)! push! push_b256! resize_memory! as_usize_or_fail(_ret)! as_usize_saturated! as_u64_saturated!. "
+               "TWO contract variants of the same text (units/prelude/static_common.rs.in). Unit `static` (any mode): for ALL "
+               "interpreter states, stacks, operands, forks and host answers: (a) is_static of the frame never changes; (b) in a "
+               "static frame SSTORE, TSTORE (from Cancun), LOG0-4, SELFDESTRUCT, CREATE, CREATE2, EOFCREATE (in EOF) end with "
+               "instruction_result == StateChangeDuringStaticCall and EVERY other field of the interpreter (gas, stack, memory, "
+               "next_action, ...) bit-identical; (c) CALL in a static frame with >= 3 words and value != 0 ends with "
+               "CallNotAllowedInsideStatic, exactly gas/to/value popped, everything else identical; EXTCALL sets that code only in a "
+               "static frame and then hands nothing to the EVM; (d) the ONLY action each call instruction can hand to the EVM is "
+               "InterpreterAction::Call{inputs} with inputs.scheme its own scheme, inputs.is_static == frame.is_static (CALL, "
+               "CALLCODE, DELEGATECALL, EXTCALL, EXTDELEGATECALL) resp. == true (STATICCALL, EXTSTATICCALL), and -- for all but "
+               "CALLCODE -- inputs.is_static ==> the value is Apparent or Transfer(0); CALLCODE: caller == target_address == the "
+               "frame's own address (self-transfer); (e) Create / EOFCreate actions are produced only by NON-static frames; (f) "
+               "reads never fail with a static-mode code; no instruction of host.rs sets next_action. Unit `static_s` (every "
+               "instruction entered with is_static, the four Host mutators given precondition FALSE): every call site of "
+               "host.sstore / tstore / log / selfdestruct is proved UNREACHABLE in a static frame -- 'host state not touched', "
+               "which a postcondition on the interpreter alone cannot say.",
+    level_note="NOT decided here (trusted wiring, named): (1) EvmContext::make_call_frame passes inputs.is_static to "
+               "Interpreter::new (crates/revm/src/context/evm_context.rs:261; make_create_frame / make_eofcreate_frame pass false, "
+               "which is sound BECAUSE (e) shows create actions never come from static frames) -- C07's frames unit; (2) 'world state "
+               "at the end of the static call equals the state at its start' for a whole frame follows from (b)-(e) for every step "
+               "of the interpreter loop plus journaling (C06) -- the loop / opcode dispatch (C05) are wiring, DESIGN 2.9 item 4; (3) "
+               "Host implementations other than the instruction-level calls (EvmContext's own sstore/tstore/log/selfdestruct "
+               "forwarders in crates/revm) are outside crates/interpreter and reached only through these four call sites. "
+               "READING of the statement: 'call with non-zero value' is CALL and EXTCALL (EIP-214 lists CALL only); CALLCODE with "
+               "value != 0 in a static frame is NOT refused by the code: it hands CallInputs{CallCode, Transfer(v), is_static: true, "
+               "caller == target_address} to the EVM (self-transfer, net zero); verified as such, reported to the lead. blockhash is "
+               "not under contract (`hash.0` of the opaque alloy FixedBytes); it calls only host.block_hash (census). "
+               "Text substitutions in extracted code (path-subst, evidence): SPEC::SPEC_ID / BerlinSpec::SPEC_ID -> "
+               "spec_id_exec::<..>(), `if const {` -> `if {` (check!), U256::ZERO -> U256_ZERO, `) | (` / `) & (` on bools -> "
+               "`||` / `&&` (as_usize_or_fail_ret!, as_u64_saturated!), `for _ in 0..N` -> `for _i in _it: 0..N` (LOG: names the "
+               "loop's ghost iterator, same loop), eofcreate: `unsafe { *interpreter.instruction_pointer }` -> "
+               "read_immediate_u8(..) and `unsafe { interpreter.instruction_pointer.offset(1) }` -> ip_offset1(..) (external_body "
+               "wrappers whose body is exactly the replaced expression: Verus has no raw-pointer dereference). "
+               "pop_extcall_target_address is extracted but TRUSTED (external_body: `.iter().any(..)`), with the contract 'pops at "
+               "most one word, may set instruction_result, no host'. Per-frame memory: SharedMemory::len/slice/slice_range/set_data "
+               "and interpreter::resize_memory are ASSUMED locally (units/prelude/static_mem.rs) with the clause text of "
+               "contracts/memory.vc resp. the clauses announced by builder c11-memory for contracts/meminstr.vc; to be switched to "
+               "the ledger when unit meminstr is baselined.",
+    trusted=COMMON_TRUST + [
+        "units/prelude/static_common.rs.in: external_trait_specification of revm_interpreter::Host (all 13 methods, no "
+        "postconditions: host answers are arbitrary); the ONLY difference between units static / static_s is "
+        "static_variant() / host_mutators_callable()",
+        "units/prelude/ruint.rs (ruint 1.12.3 contracts over uval), units/prelude/static_env.rs (frozen copy of "
+        "prelude/env.rs: Env/CfgEnv declared transparent, Spec::enabled == SPEC_ID >= fork, spec_id_exec, core::cmp::min, "
+        "Bytes deref/len)",
+        "units/prelude/static_mem.rs: LOCAL copies of the memory contracts (SharedMemory::len/slice/slice_range/set_data as in "
+        "contracts/memory.vc; interpreter::resize_memory as announced for contracts/meminstr.vc) -- not yet ledger-backed",
+        "alloy / bytes / std operations without value postconditions: B256::from(U256), Address::from_word, Address::create2, "
+        "keccak256, Bytes::new/copy_from_slice/clone/clear/deref_mut, [T]::to_vec, LogData::new (Some for <= 4 topics), "
+        "Result::unwrap_or, core::cmp::max, Range::is_empty / clone (usize), StateLoad::deref == &data",
+        "Interpreter::gas == &self.gas, Interpreter::stack_mut == &mut self.stack, Interpreter::eof == contract.bytecode's EOF "
+        "container (one-line accessors of interpreter.rs, assumed), Eof::decode as an uninterpreted function, "
+        "EOFCreateInputs::new_opcode (no postcondition)",
+        "eofcreate: read_immediate_u8 / ip_offset1 wrappers (raw pointer read / offset of instruction_pointer)",
+        "pop_extcall_target_address: extracted text, external_body (trusted) frame contract",
+        "Gas::record_cost/record_refund/remaining/remaining_63_of_64_parts, Stack::len/pop*_unsafe/top_unsafe/push/push_b256, "
+        "sload_cost/sstore_cost/sstore_refund/selfdestruct_cost/warm_cold_cost/log_cost/extcodecopy_cost/initcode_cost/"
+        "create2_cost/call_cost/cost_per_word, SpecId::is_enabled_in: through the contract ledger (proved in units gas, stack, "
+        "gascalc, re-run by this property's closure)",
+    ],
+    assumptions=[
+        "entry invariants of every instruction: gas_wf, stack_wf (<= 1024 words), mem_wf, mem_gas_inv (memory paid + gas left < "
+        "2^55), refund counter within +-2^62 (room for one SSTORE / SELFDESTRUCT refund)",
+        "LOG<N>: N <= 4 (the instruction table instantiates 0..4)",
+        "EOFCREATE on the NON-static path only: the frame runs a validated EOF container -- the immediate indexes an existing "
+        "sub-container that decodes with a filled data section (otherwise the code panics: `expect`); irrelevant in a static frame",
+        "64-bit target (`global size_of usize == 8`, checked by rustc when the unit is compiled)",
+        "trusted wiring: make_call_frame passes inputs.is_static to Interpreter::new (C07); the frame-level consequence 'world "
+        "state unchanged' rests on the guards + journaling (C06) through the interpreter loop",
+        "machine arithmetic is NOT treated as mathematical: every + - * on u64/usize in the extracted bodies is an overflow "
+        "obligation (e.g. `offset + len` after resize_memory!, `gas_limit -= gas_limit / 64`)",
+    ],
     explanation=_census_text(),
 )
